@@ -176,6 +176,15 @@ func checkC09(c *core.Ctx) error {
 				continue
 			}
 			d := twinDiff(normKernel(pkg, f1, twinOpts{}), normKernel(pkg, f2, twinOpts{}), posStr)
+			if d != "" {
+				// the kernels are written differently: they are still interchangeable if each of them, interpreted on its own,
+				// implements the second-order chain rule (the rule of C01.R1/R2), so a restructuring of one twin is not a defect
+				bad := shadowCombinatorFailures(c, pkg, T)
+				if len(bad["(*"+T+")."+pr[0]]) == 0 && len(bad["(*"+T+")."+pr[1]]) == 0 {
+					c.OK("C09.R2", cons, "same kernel as "+pr[1], f1.Pos(), "kernels differ textually; both satisfy the chain-rule identity (C01.R1/R2)")
+					continue
+				}
+			}
 			c.Check(d == "", "C09.R2", cons, "same kernel as "+pr[1], f1.Pos(), d)
 		}
 	}
@@ -304,4 +313,25 @@ func DebugKernelSummary(pkg *packages.Package, T, method string) string {
 		return "undecided: " + u.Msg
 	}
 	return s
+}
+
+var shadowCombCache = map[string]map[string][]string{}
+
+// shadowCombinatorFailures runs the chain-rule rule of C01 on all combinators of T in a scratch context and returns the
+// violated or undecided obligations per combinator.
+func shadowCombinatorFailures(c *core.Ctx, pkg *packages.Package, T string) map[string][]string {
+	if r, ok := shadowCombCache[T]; ok {
+		return r
+	}
+	sh := core.NewCtx("C01", c.Tier, c.Repo, c.VerifDir)
+	sh.Fset, sh.Pkgs, sh.Root = c.Fset, c.Pkgs, c.Root
+	checkCombinators(sh, pkg, T)
+	r := map[string][]string{}
+	for _, o := range sh.Obls {
+		if o.Verdict != core.Discharged {
+			r[o.Construct] = append(r[o.Construct], o.Detail+": "+o.Msg)
+		}
+	}
+	shadowCombCache[T] = r
+	return r
 }
